@@ -1,6 +1,7 @@
 (* C13 — sizes, bounds, initialisers and value arguments must be compile-time computable. *)
 From Coq Require Import List Bool Arith.
 From Utap Require Import Effects EffectsProofs Compute.
+From Utap Require Import DotModel DotProofs RestrictModel.
 Import ListNotations.
 
 Section C13.
@@ -25,3 +26,18 @@ Example C13_example :
   let comp := fun v => Nat.eqb v 8 in                                (* only K is a constant *)
   ctc [f] comp (Op [Var 8; Lit]) = true /\ ctc [f] comp (Op [Var 8; Call 0 []]) = false.
 Proof. vm_compute. split; reflexivity. Qed.
+
+(* ---- free process parameters and array sizes ----
+   The `restricted` sets the builder propagates through instantiations (RestrictModel.restrict_chain: instantiation_end) single out,
+   among the free parameters K of a process, exactly those that occur in the size expression once the arguments of every
+   instantiation level are substituted: the type checker's rejection of a restricted free parameter rejects a process exactly when
+   an array size depends on one of its free parameters, whatever the depth of the chain. *)
+Theorem C13_restricted_iff_size_depends : forall lvs b R K, chain_ok lvs b K -> agree R b (next_keys lvs K) ->
+  forall q, In q K -> (In q (restrict_chain R lvs) <-> In q (fv (size_after b lvs))).
+Proof. intros lvs b R K Hc Ha q Hq. exact (restricted_iff_occurs lvs b R K Hc Ha q Hq). Qed.
+Print Assumptions C13_restricted_iff_size_depends.
+(* the symbols of an expression after one level: those it kept, and those of the arguments of the parameters it mentioned *)
+Theorem C13_symbols_after_a_level : forall lv, level_ok lv -> forall b y,
+  In y (fv (bsubst_all lv b)) <-> (In y (fv b) /\ ~ In y (map fst lv)) \/ exists p e, In (p, e) lv /\ In p (fv b) /\ In y (fv e).
+Proof. exact fv_level. Qed.
+Print Assumptions C13_symbols_after_a_level.
